@@ -1002,6 +1002,21 @@ fn search_idl(obs: &[&str]) {
             Err(e) => { found.entry("syntax").or_insert(json!({"text": text, "observed": format!("{}", e)})); }
         }
     }}}}
+    // mirror: documentation comments, field names and types are those of the source -- also when the trivia around a comment is one of the grammar's exotic white space characters
+    // (a byte order mark, U+180E, U+2028 ...), which belong to the white space, not to the comment
+    for ws in ["", " ", "\u{feff}", "\u{180e}", "\u{2028}", "\u{a0}\u{3000}", "\r\n"] {
+        explored += 1;
+        let text = format!("{ws}# The interface{ws}\n{ws}interface org.example.doc\n\n{ws}# A type\n# second line{ws}\ntype T (a: int, b: ?[]string)\n\n{ws}# A method{ws}\nmethod M(x: T) -> (y: (p, q))\n\n{ws}# An error{ws}\nerror E (why: string){ws}\n", ws = ws);
+        match IDL::try_from(text.as_str()) {
+            Ok(i) => {
+                let got = json!({"interface": i.doc, "type": i.typedefs.get("T").map(|t| t.doc), "method": i.methods.get("M").map(|t| t.doc), "error": i.errors.get("E").map(|t| t.doc),
+                    "method_in": i.methods.get("M").map(|m| m.input.elts.iter().map(|a| a.name).collect::<Vec<_>>()), "type_fields": i.typedefs.get("T").map(|t| match &t.elt { varlink_parser::VStructOrEnum::VStruct(s) => s.elts.iter().map(|a| format!("{}: {}", a.name, a.vtype)).collect::<Vec<_>>(), _ => vec![] })});
+                let want = json!({"interface": "# The interface", "type": "# A type\n# second line", "method": "# A method", "error": "# An error", "method_in": ["x"], "type_fields": ["a: int", "b: ?[]string"]});
+                if got != want { found.entry("order").or_insert(json!({"text": text, "white_space_around_comments": ws.escape_unicode().to_string(), "observed": got, "expected": want})); }
+            }
+            Err(e) => { found.entry("order").or_insert(json!({"text": text, "white_space_around_comments": ws.escape_unicode().to_string(), "observed": format!("rejected: {}", e)})); }
+        }
+    }
     for ob in obs {
         let class = match *ob { "C11.dups-reported" | "C11.reject-dups" => "dups", "C11.no-false-dups" | "C11.accept" => "nofalse", "C11.order" | "C11.mirror" => "order", "C11.reject-syntax" => "syntax", _ => "none" };
         let f = found.get(class);
